@@ -8,7 +8,9 @@
 //	O3 (end to end): real ed25519 keys and signer, real InterceptedTransaction: a correctly signed
 //	   transaction passes CheckValidity; with any field changed and the signature kept it fails. The same for
 //	   the user transaction inside relayed v1 / v2 transactions whose outer transaction is re-signed by the
-//	   relayer.
+//	   relayer. All receptions of a case go through ONE real whitelist of verified transactions (as on a
+//	   node, where a second peer or the API delivers the same bytes again); every mutated transaction is
+//	   received two or three times, before and after the genuine one, and must be rejected every time.
 package main
 
 import (
@@ -37,11 +39,13 @@ import (
 	"github.com/ElrondNetwork/elrond-go/hashing/blake2b"
 	"github.com/ElrondNetwork/elrond-go/hashing/keccak"
 	"github.com/ElrondNetwork/elrond-go/marshal"
+	"github.com/ElrondNetwork/elrond-go/process"
+	"github.com/ElrondNetwork/elrond-go/process/interceptors"
 	"github.com/ElrondNetwork/elrond-go/process/mock"
 	"github.com/ElrondNetwork/elrond-go/process/smartContract"
 	processTx "github.com/ElrondNetwork/elrond-go/process/transaction"
 	"github.com/ElrondNetwork/elrond-go/sharding"
-	"github.com/ElrondNetwork/elrond-go/testscommon"
+	"github.com/ElrondNetwork/elrond-go/storage/storageUnit"
 	"verif/internal/vk"
 )
 
@@ -470,18 +474,116 @@ func (e *env) sign(m txModel, k keyPair) ([]byte, error) {
 	return e.signer.Sign(k.sk, b)
 }
 
-// check runs the real interceptor path on the wire form of the transaction
-func (e *env) check(m txModel, sig []byte, chainID string) error {
+// newWhitelist builds the verified-transactions whitelist the way the node does (node/nodeRunner.go
+// createWhiteListerVerifiedTxs): interceptors.NewWhiteListDataVerifier over a FIFO sharded cache
+func (e *env) newWhitelist() (process.WhiteListHandler, error) {
+	cache, err := storageUnit.NewCache(storageUnit.CacheConfig{Name: "WhiteListerVerifiedTxs", Type: storageUnit.FIFOShardedCache, Capacity: 2000, Shards: 4})
+	if err != nil {
+		return nil, err
+	}
+	return interceptors.NewWhiteListDataVerifier(cache)
+}
+
+// check is one reception: the real interceptor path on the wire form of the transaction, with the
+// whitelist of already verified transactions that all receptions of the case share
+func (e *env) check(m txModel, sig []byte, chainID string, wl process.WhiteListHandler) error {
 	buff, err := e.protoMarsh.Marshal(m.toTx(sig))
 	if err != nil {
 		return fmt.Errorf("harness: proto marshal: %w", err)
 	}
 	inTx, err := processTx.NewInterceptedTransaction(buff, e.protoMarsh, e.signMarsh, blake2b.NewBlake2b(), e.keyGen, e.signer, e.conv, e.coordinator,
-		&mock.FeeHandlerStub{}, &testscommon.WhiteListHandlerStub{}, smartContract.NewArgumentParser(), []byte(chainID), true, keccak.NewKeccak(), versioning.NewTxVersionChecker(1))
+		&mock.FeeHandlerStub{}, wl, smartContract.NewArgumentParser(), []byte(chainID), true, keccak.NewKeccak(), versioning.NewTxVersionChecker(1))
 	if err != nil {
 		return fmt.Errorf("constructor: %w", err)
 	}
 	return inTx.CheckValidity()
+}
+
+// wireTx is one transaction as it travels: field == "" marks the genuine one, anything else names what
+// differs from the transaction that the (outer or inner) signature was made for
+type wireTx struct {
+	field  string
+	m      txModel
+	sig    []byte
+	detail map[string]interface{}
+}
+
+// receive runs the reception schedule of one case over ONE shared whitelist. Every mutated transaction is
+// received at least twice; in half of the cases the genuine one comes first (it legitimately whitelists its
+// own hash), in the other half the mutated ones come first, then the genuine one, then the mutated ones a
+// third time. Oracle: a transaction whose outer or inner signature does not cover its fields is rejected at
+// EVERY reception; the genuine one is accepted at every reception.
+func (e *env) receive(r *vk.Run, c *vk.Case, scenario, chainID string, genuine wireTx, mutants []wireTx) {
+	wl, err := e.newWhitelist()
+	if err != nil {
+		r.Inconclusive("whitelist: " + err.Error())
+		return
+	}
+	ident := func(w wireTx) string { return vk.Hex(w.sig) + fmt.Sprint(w.m.dump()) }
+	// two mutations may coincide (nonce+1 and nonce^1): keep one wire transaction of each kind
+	uniq := map[string]bool{ident(genuine): true}
+	var list []wireTx
+	for _, w := range mutants {
+		if id := ident(w); !uniq[id] {
+			uniq[id] = true
+			list = append(list, w)
+		}
+	}
+	mutants = list
+	seen := map[string]int{}
+	ok := true
+	recv := func(w wireTx) {
+		id := ident(w)
+		seen[id]++
+		n := seen[id]
+		err := e.check(w.m, w.sig, chainID, wl)
+		r.Eval(1)
+		d := map[string]interface{}{"chainID": chainID, "reception": n, "tx": w.m.dump(), "signature": vk.Hex(w.sig)}
+		for k, v := range w.detail {
+			d[k] = v
+		}
+		if w.field == "" {
+			r.Count("o3."+scenario+".genuine_receptions", 1)
+			if err != nil {
+				ok = false
+				r.Violation(c.Idx, fmt.Sprintf("valid-signed-tx-rejected scenario=%s reception=%d", scenario, n), fmt.Sprintf("correctly signed transaction rejected at reception %d: %v", n, err), d)
+			}
+			return
+		}
+		r.Count("o3."+scenario+".mutant_receptions", 1)
+		r.Count(fmt.Sprintf("o3.mutant_receptions.n%d", n), 1)
+		if err == nil {
+			r.Violation(c.Idx, fmt.Sprintf("mutated-tx-accepted scenario=%s field=%s reception=%d", scenario, w.field, n),
+				fmt.Sprintf("%s: a signature made for one transaction is accepted for another that differs in %s (reception %d of that transaction by the same node)", scenario, w.field, n), d)
+		} else {
+			r.Count("o3.reject."+errClass(err), 1)
+		}
+	}
+	if c.Rng.Bool() {
+		r.Count("o3.order.genuine-first", 1)
+		recv(genuine)
+		if !ok {
+			return
+		}
+		for _, w := range mutants {
+			recv(w)
+			recv(w)
+		}
+		recv(genuine)
+		return
+	}
+	r.Count("o3.order.mutated-first", 1)
+	for _, w := range mutants {
+		recv(w)
+	}
+	for _, w := range mutants {
+		recv(w)
+	}
+	recv(genuine)
+	for _, w := range mutants {
+		recv(w)
+	}
+	recv(genuine)
 }
 
 func errClass(err error) string {
@@ -498,10 +600,10 @@ func errClass(err error) string {
 func main() {
 	logger.SetLogLevel("*:NONE")
 	r := vk.Start("C24")
-	r.Rule("case = random transaction: nonce / gas price / gas limit from {0, JSON-number boundaries 2^53+-1, 2^63, 2^64-1, small, random}, value from {0, small, powers of ten, negative (O1/O2 only), up to 2^208}, receiver random / all-zero / equal to sender, user names and data nil / empty / call-data text / random bytes, chain ids incl. quotes, HTML characters, non-ASCII, U+2028, version and options 0..3 or random. Address length 32 (bech32 converter), other even lengths 2..50 in 1/8 of the O1/O2 cases. O1+O2 run on every case with ~30 one-field mutations and 6 two-field swaps; O3 runs on every fifth case in one of three scenarios (direct, relayed v1 inner, relayed v2 inner) with fresh ed25519 keys derived from the case PRNG. Non-trivial = every case; shape = scenario + per-field value classes.")
+	r.Rule("case = random transaction: nonce / gas price / gas limit from {0, JSON-number boundaries 2^53+-1, 2^63, 2^64-1, small, random}, value from {0, small, powers of ten, negative (O1/O2 only), up to 2^208}, receiver random / all-zero / equal to sender, user names and data nil / empty / call-data text / random bytes, chain ids incl. quotes, HTML characters, non-ASCII, U+2028, version and options 0..3 or random. Address length 32 (bech32 converter), other even lengths 2..50 in 1/8 of the O1/O2 cases. O1+O2 run on every case with ~30 one-field mutations and 6 two-field swaps; O3 runs on every eighth case in one of three scenarios (direct, relayed v1 inner, relayed v2 inner) with fresh ed25519 keys derived from the case PRNG; all receptions of a case share one real verified-transactions whitelist (WhiteListDataVerifier over a FIFO sharded cache, as the node wires it) and every mutated transaction (each one-field mutation, each swap, and the signature moved to an unrelated transaction of the same signer) is received two or three times, before and after the genuine one. Non-trivial = every case; shape = scenario + per-field value classes.")
 	r.Assume("domain: addresses of the configured length, chain id valid UTF-8, Value non-nil",
 		"nil and empty byte slices are the same field value",
-		"O3 uses stub fee handler (accepts all) and a whitelist stub that never white-lists, so the signature path always runs; the relayer may re-sign its own outer transaction, the user signature is never recomputed after a mutation",
+		"O3 uses a stub fee handler (accepts all) and the real whitelist of verified transactions, one instance per case shared by all receptions; a genuine transaction legitimately whitelists its own hash, a mutated one has another hash; the relayer may re-sign its own outer transaction, the user signature is never recomputed after a mutation",
 		"ed25519 from the Go standard library (through the repo's wrapper) is trusted")
 	r.MinShapes(1000)
 
@@ -613,7 +715,7 @@ func main() {
 		scenario := "sign-only"
 
 		// ------------------------------------------------------------------ O3
-		if c.Idx%5 == 0 {
+		if c.Idx%8 == 0 {
 			chainID := chainIDs[rng.Intn(len(chainIDs))]
 			switch rng.Intn(4) {
 			case 0:
@@ -642,6 +744,17 @@ func (m txModel) toTxShared(sig []byte) *transaction.Transaction {
 		GasPrice: m.GasPrice, GasLimit: m.GasLimit, Data: m.Data, ChainID: m.ChainID, Version: m.Version, Options: m.Options, Signature: sig}
 }
 
+// otherTx draws an unrelated transaction of the same sender (whole-signature reuse)
+func otherTx(rng *vk.Rand, like txModel, chainID string) txModel {
+	for {
+		o, _ := genModel(rng, 32, true, chainID)
+		o.Snd = cp(like.Snd)
+		if !o.same(like) {
+			return o
+		}
+	}
+}
+
 func runDirect(r *vk.Run, c *vk.Case, e *env, chainID string) {
 	rng := c.Rng
 	k, err := e.newKey(rng)
@@ -659,24 +772,11 @@ func runDirect(r *vk.Run, c *vk.Case, e *env, chainID string) {
 		r.Violation(c.Idx, "signing-error", fmt.Sprintf("signing failed: %v", err), m.dump())
 		return
 	}
-	err = e.check(m, sig, chainID)
-	r.Eval(1)
-	r.Count("o3.direct.valid_checked", 1)
-	if err != nil {
-		r.Violation(c.Idx, "valid-signed-tx-rejected scenario=direct", fmt.Sprintf("correctly signed transaction rejected: %v", err), map[string]interface{}{"tx": m.dump(), "signature": vk.Hex(sig), "chainID": chainID})
-		return
+	var mutants []wireTx
+	for _, mu := range append(mutations(rng, m), mutation{"other-tx", otherTx(rng, m, chainID)}) {
+		mutants = append(mutants, wireTx{field: mu.field, m: mu.m, sig: sig, detail: map[string]interface{}{"signed_tx": m.dump()}})
 	}
-	for _, mu := range mutations(rng, m) {
-		err = e.check(mu.m, sig, chainID)
-		r.Eval(1)
-		r.Count("o3.direct.mutants", 1)
-		if err == nil {
-			r.Violation(c.Idx, "mutated-tx-accepted scenario=direct field="+mu.field, fmt.Sprintf("signature of one transaction accepted for another that differs in %s", mu.field),
-				map[string]interface{}{"signed_tx": m.dump(), "accepted_tx": mu.m.dump(), "signature": vk.Hex(sig), "chainID": chainID})
-		} else {
-			r.Count("o3.reject."+errClass(err), 1)
-		}
-	}
+	e.receive(r, c, "direct", chainID, wireTx{m: m, sig: sig}, mutants)
 }
 
 func notRelayedData(rng *vk.Rand) []byte {
@@ -726,28 +826,15 @@ func runRelayedV1(r *vk.Run, c *vk.Case, e *env, chainID string) {
 		r.Inconclusive("cannot build the relayed transaction: " + err.Error())
 		return
 	}
-	err = e.check(o, osig, chainID)
-	r.Eval(1)
-	r.Count("o3.relayed-v1.valid_checked", 1)
-	if err != nil {
-		r.Violation(c.Idx, "valid-signed-tx-rejected scenario=relayed-v1", fmt.Sprintf("correct relayed transaction rejected: %v", err), map[string]interface{}{"inner": inner.dump(), "outer": o.dump(), "chainID": chainID})
-		return
-	}
-	for _, mu := range mutations(rng, inner) {
+	var mutants []wireTx
+	for _, mu := range append(mutations(rng, inner), mutation{"other-tx", otherTx(rng, inner, chainID)}) {
 		mo, mosig, err := build(mu.m)
 		if err != nil {
 			continue
 		}
-		err = e.check(mo, mosig, chainID)
-		r.Eval(1)
-		r.Count("o3.relayed-v1.mutants", 1)
-		if err == nil {
-			r.Violation(c.Idx, "mutated-tx-accepted scenario=relayed-v1 field="+mu.field, fmt.Sprintf("user signature accepted for an inner transaction that differs in %s", mu.field),
-				map[string]interface{}{"signed_inner": inner.dump(), "accepted_inner": mu.m.dump(), "inner_signature": vk.Hex(innerSig), "outer": mo.dump(), "chainID": chainID})
-		} else {
-			r.Count("o3.reject."+errClass(err), 1)
-		}
+		mutants = append(mutants, wireTx{field: mu.field, m: mo, sig: mosig, detail: map[string]interface{}{"signed_inner": inner.dump(), "carried_inner": mu.m.dump(), "inner_signature": vk.Hex(innerSig)}})
 	}
+	e.receive(r, c, "relayed-v1", chainID, wireTx{m: o, sig: osig, detail: map[string]interface{}{"inner": inner.dump()}}, mutants)
 }
 
 func runRelayedV2(r *vk.Run, c *vk.Case, e *env, chainID string) {
@@ -783,14 +870,12 @@ func runRelayedV2(r *vk.Run, c *vk.Case, e *env, chainID string) {
 		r.Inconclusive("cannot build the relayed v2 transaction: " + err.Error())
 		return
 	}
-	err = e.check(o, osig, chainID)
-	r.Eval(1)
-	r.Count("o3.relayed-v2.valid_checked", 1)
-	if err != nil {
-		r.Violation(c.Idx, "valid-signed-tx-rejected scenario=relayed-v2", fmt.Sprintf("correct relayed v2 transaction rejected: %v", err), map[string]interface{}{"inner": inner.dump(), "outer": o.dump(), "chainID": chainID})
-		return
-	}
-	for _, mu := range mutations(rng, inner) {
+	// whole-signature reuse: another v2-expressible inner transaction of the same user
+	other := inner.clone()
+	other.Rcv, other.Data = rng.Bytes(32), notRelayedData(rng)
+	other.Nonce += uint64(1 + rng.Intn(5))
+	var mutants []wireTx
+	for _, mu := range append(mutations(rng, inner), mutation{"other-tx", other}) {
 		// only the fields that the v2 format can express: value, gas limit and user names are fixed by the format
 		if mu.m.Value.Sign() != 0 || mu.m.GasLimit != 0 || len(mu.m.SndUser) != 0 || len(mu.m.RcvUser) != 0 {
 			continue
@@ -799,14 +884,7 @@ func runRelayedV2(r *vk.Run, c *vk.Case, e *env, chainID string) {
 		if err != nil {
 			continue
 		}
-		err = e.check(mo, mosig, chainID)
-		r.Eval(1)
-		r.Count("o3.relayed-v2.mutants", 1)
-		if err == nil {
-			r.Violation(c.Idx, "mutated-tx-accepted scenario=relayed-v2 field="+mu.field, fmt.Sprintf("user signature accepted for a relayed v2 inner transaction that differs in %s", mu.field),
-				map[string]interface{}{"signed_inner": inner.dump(), "accepted_inner": mu.m.dump(), "inner_signature": vk.Hex(innerSig), "outer": mo.dump(), "chainID": chainID})
-		} else {
-			r.Count("o3.reject."+errClass(err), 1)
-		}
+		mutants = append(mutants, wireTx{field: mu.field, m: mo, sig: mosig, detail: map[string]interface{}{"signed_inner": inner.dump(), "carried_inner": mu.m.dump(), "inner_signature": vk.Hex(innerSig)}})
 	}
+	e.receive(r, c, "relayed-v2", chainID, wireTx{m: o, sig: osig, detail: map[string]interface{}{"inner": inner.dump()}}, mutants)
 }
